@@ -65,23 +65,6 @@ def showAct {α} (A : Arith α) (a : Act α) : String :=
       s!"{cid}:{code}:{if code == "W" then "-" else A.raw v}{if code == "W" then "" else showOpt A kf}{if code == "W" then "" else showOpt A q}"))
     ++ " W " ++ " ".intercalate (a.ws.map (fun (i, w) => s!"{i}:{A.raw w}"))
 
-inductive Out (α : Type) | fuel | crash (k : String) | ok (acts : List (Act α))
-
-def finish {α} (A : Arith α) (r : Option (St α)) : Out α :=
-  match r with
-  | none => .fuel
-  | some s =>
-    match s.crash with
-    | some k => .crash k
-    | none =>
-      let s' := s.logAct A "end" "Count Complete" []
-      let nE := s'.elected.length
-      if nE == s'.seats || (nE < s'.seats && nE == s'.eligible.length) then
-        -- the Meek family keeps no per-ballot weights between distributions: no ballot view there
-        .ok ((s'.acts.reverse.filter (fun a => a.snap.isSome)).map
-              (fun a => if s'.method == .meek then { a with ws := [] } else a))
-      else .crash "AssertionError"
-
 def showOut {α} (A : Arith α) : Out α → String
   | .fuel => "FUEL"
   | .crash k => "CRASH " ++ k
@@ -158,7 +141,7 @@ def evalWith {α} (A : Arith α) (units : Int → α) (pv : String → Option α
     match parseOut (c.rule == "qpq") A.zero pv line with
     | none => "BAD-IMPL-LINE"
     | some o =>
-      s!"MODEL {oracles A units c m} ;; IMPL {oracles A units c o} ;; SAME={b2s (showOut A m == showOut A o)}"
+      s!"MODEL {oracles A units c m} ;; IMPL {oracles A units c o} ;; SAME={b2s (showOut A m == showOut A o)} DOM={b2s (caseOK c)}"
 
 def parseRat (s : String) : Option Rat :=
   match s.splitOn "/" with
